@@ -41,7 +41,11 @@ func Harness_C10_SyncMessages() {
 		Limit:     zzsym.Int("query.limit"),
 		PullMode:  message.PullMode(zzsym.U8("query.pullmode")),
 	}
-	zzsym.Assume(query.Limit >= -1 && query.Limit <= 3)
+	maxLimit := 3
+	if zzsym.Thorough() {
+		maxLimit = 4
+	}
+	zzsym.Assume(query.Limit >= -1 && query.Limit <= maxLimit)
 	zzsym.Assume(query.PullMode == message.PullModeDown || query.PullMode == message.PullModeUp)
 
 	page, err := reader.SyncMessages(clusterchannels.ZZC10Ctx{}, query)
